@@ -14,7 +14,7 @@ package eventlogstore
 //@   props C08
 //@   flag nilcalls
 //@   requires amount >= 0
-//@   requires forall i Int :: 0 <= i && i < len(ops) ==> ops[i] != nil
+//@   requires forall i Int :: 0 <= i && i < len(ops) ==> ops[i] != nil && ref(ops[i]) != 0
 //@   ghost f := firstMatch(ops, cidStr(hash))
 //@   ghost s := (f < len(ops) ? f : 0) + (inclusive ? 0 : 1)
 //@   ghost amount0 := amount
@@ -54,7 +54,7 @@ package eventlogstore
 //@   ghost e := pb < n ? (incl ? pb + 1 : pb) : (incl ? n : n - 1)
 //@   requires o.BaseStore.index != nil
 //@   requires has ==> !(options.GT != nil && options.GTE != nil) && !(options.LT != nil && options.LTE != nil)
-//@   requires forall i Int :: 0 <= i && i < n ==> L[i] != nil
+//@   requires forall i Int :: 0 <= i && i < n ==> L[i] != nil && ref(L[i]) != 0
 //@   requires forall a Int, b Int :: 0 <= a && a < b && b < n ==> hs(L[a]) != hs(L[b])
 //@   loop 1 ghost E0 := events
 //@   loop 1 invariant len(events) == n && 0 - 1 <= i && i <= n / 2 - 1
